@@ -167,7 +167,8 @@ type vcDerived struct {
 func vcOp(cfg *vcCfg, l *vcLoaded, groups []discover.GpuInfoList) (string, vcDerived) {
 	f := l.f
 	var sb strings.Builder
-	fmt.Fprintf(&sb, "c16 %d %d", cfg.NumGPU, envconfig.GpuOverhead())
+	// code variant the model is to mirror: 0 = pinned, 1 = with proposed fix C16-W1 applied
+	fmt.Fprintf(&sb, "c16 %d %d %d", zzverif.EnvInt("VERIF_C16_VARIANT", 0), cfg.NumGPU, envconfig.GpuOverhead())
 	numCtx := cfg.NumCtx
 	fmt.Fprintf(&sb, " %d", len(l.projs))
 	for _, p := range l.projs {
@@ -515,6 +516,11 @@ func vcGenModel(r *zzverif.Rng, out *zzverif.Out) vcFile {
 		if arch == "llama" && i == 0 && r.Chance(1, 8) {
 			if r.Bool() {
 				m.Tensors = append(m.Tensors, vcTensorOf(r, "blk.0.ffn_gate_exps.weight", sz/4+1))
+				if _, ok := m.U32["feed_forward_length"]; !ok {
+					// GraphSize panics (nil interface conversion) on a mixtral-style file without
+					// llama.feed_forward_length; outside C16, avoided here
+					m.U32["feed_forward_length"] = 14336
+				}
 			} else {
 				m.Tensors = append(m.Tensors, vcTensor{Name: "blk.0.ffn_gate.0.weight", Kind: 0, Shape: []uint64{64, uint64(r.Range(1, 4096))}})
 			}
@@ -789,7 +795,7 @@ func (v *vcRunner) model(r *zzverif.Rng, perModel int) {
 		mode := rr.Intn(10)
 		for i := range free {
 			switch {
-			case mode == 0: // tiny
+			case mode == 0 && i%2 == 0: // tiny
 				free[i] = uint64(rr.Intn(4096))
 			case mode == 1: // plenty
 				free[i] = need*2 + uint64(rr.Intn(1<<30))
@@ -807,7 +813,7 @@ func (v *vcRunner) model(r *zzverif.Rng, perModel int) {
 			continue
 		}
 		// analytic boundary of the admission comparison for one GPU
-		if rr.Chance(1, 2) && len(base.ests) > 0 {
+		if rr.Chance(1, 4) && len(base.ests) > 0 {
 			e := base.ests[0]
 			gi := rr.Intn(n)
 			gzo := e.projectorWeights + e.projectorGraph
@@ -833,7 +839,7 @@ func (v *vcRunner) model(r *zzverif.Rng, perModel int) {
 		}
 		// boundary found by bisection on the REAL estimator: smallest free memory of one GPU at
 		// which the observable result differs from the one at `lo`
-		if rr.Chance(2, 3) {
+		for rep := 0; rep < 2; rep++ {
 			gi := rr.Intn(n)
 			lo := uint64(0)
 			hi := need*2 + (1 << 32)
@@ -842,11 +848,23 @@ func (v *vcRunner) model(r *zzverif.Rng, perModel int) {
 			} else {
 				hi = max(free[gi], 1)
 			}
+			// rep 0: any change of the observable result; rep 1: "at least `target` layers offloaded"
+			target := rr.Range(1, blocks+1)
+			if rep == 1 {
+				lo, hi = 0, need*2+(1<<32)
+			}
 			obs := func(x uint64) string {
 				f2 := append([]uint64(nil), free...)
 				f2[gi] = x
 				vcSetFree(cfg, f2)
 				res := vcRun(cfg, l)
+				if rep == 1 {
+					tot := 0
+					for _, e := range res.ests {
+						tot += e.Layers
+					}
+					return strconv.FormatBool(tot >= target)
+				}
 				return res.impl
 			}
 			if lo < hi {
